@@ -25,7 +25,7 @@ RECURSIVE AddR(_, _, _, _, _)
 AddR(a, b, i, c, acc) == \* a, b same length n; i runs n..1
     IF i = 0 THEN (IF c = 0 THEN acc ELSE <<c>> \o acc)
     ELSE LET s == a[i] + b[i] + c IN AddR(a, b, i - 1, s \div 256, <<s % 256>> \o acc)
-AddMag(a, b) == LET n == Max(Len(a), Len(b)) IN Norm(AddR(PadLeft(a, n), PadLeft(b, n), n, 0, <<>>))
+AddMag(a, b) == LET n == MaxI(Len(a), Len(b)) IN Norm(AddR(PadLeft(a, n), PadLeft(b, n), n, 0, <<>>))
 
 \* a - b on magnitudes, a >= b
 RECURSIVE SubR(_, _, _, _, _)
